@@ -444,6 +444,33 @@ def judge(run, c, findings):
     return "ok"
 
 
+def overflow_probe(run, f):
+    """F25 (repaired): the witness of the finding f (journal + price file, report commodity EUR, last-price)"""
+    price = '[price]\ndb-path = "prices.db"\nlookup-type = "last-price"'
+    rq = {"conf": {"toml": J.make_toml(price=price, rcomm='commodity = "EUR"'), "pricedb": f["witness_pricedb"]},
+          "inputs": [{"text": f["witness_journal"]}], "ops": [{"op": "txns"}, {"op": "balance"}, {"op": "register"},
+                                                             {"op": "text_balance"}, {"op": "text_register"}, {"op": "text_balgrp"}]}
+    rr = harness_run([rq])[0] or {}
+    res = rr.get("results") or []
+    run.cov["evaluations"] += 1
+    bad = None
+    if rr.get("stage") in ("panic", "abort") or any(x.get("panic") for x in res[1:]):
+        bad = "the reports panic"
+    elif rr.get("stage") == "done" and any("ok" in x for x in res[1:]):
+        bad = "a report is produced although amount x rate is not representable"
+    if f.get("status") == "open":
+        if bad == "the reports panic":
+            run.known_finding(f["what"])
+        else:
+            run.violation("known finding %s no longer reproduces: model of the finding and implementation disagree" % f["id"],
+                          {"finding": f, "outcome": rr}, found_input=False)
+    elif bad:
+        run.violation("price conversion of an amount whose value exceeds the 96-bit number type: %s (expected: an error)" % bad,
+                      {"journal": f["witness_journal"], "price_file": f["witness_pricedb"], "report_commodity": "EUR",
+                       "lookup_type": "last-price", "outcome": rr})
+    return rr
+
+
 def main(run):
     info = proof_stage(run, "C07", extra_targets=["corr/C07_corr.vo"])
     harness_build()
@@ -502,28 +529,7 @@ def main(run):
     # ---- F25 (repaired): a converted amount beyond the number type must end in an error — no panic, no figure
     for f in findings:
         if f.get("class") == "conversion_overflow_panic":
-            price = '[price]\ndb-path = "prices.db"\nlookup-type = "last-price"'
-            rq = {"conf": {"toml": J.make_toml(price=price, rcomm='commodity = "EUR"'), "pricedb": f["witness_pricedb"]},
-                  "inputs": [{"text": f["witness_journal"]}], "ops": [{"op": "txns"}, {"op": "balance"}, {"op": "register"},
-                                                                     {"op": "text_balance"}, {"op": "text_register"}, {"op": "text_balgrp"}]}
-            rr = harness_run([rq])[0] or {}
-            res = rr.get("results") or []
-            run.cov["evaluations"] += 1
-            bad = None
-            if rr.get("stage") in ("panic", "abort") or any(x.get("panic") for x in res[1:]):
-                bad = "the reports panic"
-            elif rr.get("stage") == "done" and any("ok" in x for x in res[1:]):
-                bad = "a report is produced although amount x rate is not representable"
-            if f.get("status") == "open":
-                if bad == "the reports panic":
-                    run.known_finding(f["what"])
-                else:
-                    run.violation("known finding %s no longer reproduces: model of the finding and implementation disagree" % f["id"],
-                                  {"finding": f, "outcome": rr}, found_input=False)
-            elif bad:
-                run.violation("price conversion of an amount whose value exceeds the 96-bit number type: %s (expected: an error)" % bad,
-                              {"journal": f["witness_journal"], "price_file": f["witness_pricedb"], "report_commodity": "EUR",
-                               "lookup_type": "last-price", "outcome": rr})
+            overflow_probe(run, f)
     import t03_text   # extra stage (extension T03, DESIGN section 12): the price-file TEXT against PriceText.parse_pricedb + load_db
     t03_text.run_text_stage(run, n=(90 if run.tier == "quick" else 1500))
     import t05_text   # extra stage (extension T05): register / balance / balance-group TEXT of these cases under conversion and rounding
@@ -532,8 +538,32 @@ def main(run):
 
 
 def replay(run, path):
-    j = json.load(open(path))
-    c = j.get("replay", j).get("case") or j.get("case") or j
+    """the stored case (price file entries, journal, lookup, zone) through harness + c07_case + judge; the overflow witness
+    (F25) through overflow_probe; replays of the T03 / T05 text stages go to t03.replay / t05.replay (common.replay_begin)"""
+    j0 = json.load(open(path))
+    if isinstance(j0, dict) and isinstance(j0.get("replay"), dict):
+        j, rp, rc = replay_begin(run, path)
+        if rc is not None:
+            return rc
+        if "case" not in rp and isinstance(rp.get("finding"), dict) and "witness_journal" in rp["finding"]:
+            f = rp["finding"]                                  # 'known finding no longer reproduces'
+        elif "case" not in rp and "outcome" in rp and isinstance(rp.get("journal"), str) and isinstance(rp.get("price_file"), str):
+            f = {"witness_journal": rp["journal"], "witness_pricedb": rp["price_file"], "status": "fixed", "id": "F25"}
+        else:
+            f = None
+        if f is not None:
+            print(j.get("what"))
+            print("journal:\n%s\nprice file:\n%s" % (f["witness_journal"], f["witness_pricedb"]))
+            harness_build()
+            rr = overflow_probe(run, f)
+            print("now: stage %s, %s" % (rr.get("stage"), json.dumps(rr.get("results"), ensure_ascii=False)[:1500]))
+            return replay_verdict(run, path, j, "conversion beyond the number type ends in an error now (no panic, no figure)")
+    else:
+        j = j0 if isinstance(j0, dict) else {}
+    c = j.get("replay", j).get("case") or j.get("case") or j         # a replay file, or a bare case (corpus format)
+    if not (isinstance(c, dict) and "entries" in c and "journal" in c and "lt" in c):
+        return replay_print(j0)
+    print(j.get("what"))
     c = copy.deepcopy(c)
     c.setdefault("tags", []); c["src"] = "replay:" + os.path.basename(path)
     for e in c["entries"]:
@@ -543,14 +573,11 @@ def replay(run, path):
     if not ok:
         raise Infra("coq build failed:\n" + log[-2000:])
     finish_case(None, c)
+    if isinstance(j.get("replay", {}).get("price_file_permuted"), str):
+        c["file_text_perm"] = j["replay"]["price_file_permuted"]      # 'the result depends on the order of the lines': the second order
     evaluate(run, [c])
     v = judge(run, c, load_findings("C07"))
     print(json.dumps({"lookup_type": c["lt"], "report_commodity": c["rc"], "before_time": c["before"], "price_file": c["file_text"],
                       "journal": c["journal"], "implementation": c.get("impl"), "bits": c.get("bits"), "verdict": v},
                      indent=1, ensure_ascii=False)[:8000])
-    for k in run.known:
-        print("KNOWN-FINDING: property=C07 %s" % k)
-    if run.violations:
-        print("VIOLATION property=C07 replay=%s%s" % (path, "" if run.violations[0][2] else " no-failing-input-found"))
-        return 1
-    return 0
+    return replay_verdict(run, path, j, "verdict of the stored case now: %s (stage %s)" % (v, c.get("stage")))
